@@ -78,6 +78,10 @@ def run_shards(worker, shards, report, procs=None, chunksize=1):
     for status, payload in results:
         if status == 'err':
             shard, tb = payload
+            report._vacuous = True
+            report.add('worker_crashes')
+            if report.coverage['worker_crashes'] > 2:
+                continue
             print(f'HARNESS-ERROR: worker crashed on shard {shard}\n{tb}',
                   flush=True)
             report._vacuous = True
